@@ -95,6 +95,9 @@ def materialise(case):
             m["name"] = ""
         elif x < 0.10:
             m["id"] = ""
+        elif x < 0.25:
+            # dotted ids: a version that is a number, and lab spellings that are not ("pJC.v2", "kit.part-3", "a.b.1")
+            m["id"] = m["id"][:9] + re_.choice([".1", ".12", ".v2", ".2b", ".part-3", ".b.1", "."])
         return m
     return case
 
@@ -155,6 +158,16 @@ def two_level(mat, ctx):
         if refmodel.count_sites(str(p.seq), gb[0]) != 2:
             ctx.count("two_level_junction_site")
             return
+        if (mat["i"] + j) % 2:
+            # the level-0 product is saved and re-read before it is re-used (its qualifier values then are lists, its comment
+            # a string, as the GenBank parser delivers them)
+            import io
+            from Bio import SeqIO
+            buf = io.StringIO()
+            SeqIO.write(p, buf, "genbank")
+            buf.seek(0)
+            p = CircularRecord(SeqIO.read(buf, "genbank"))
+            ctx.count("c09_level0_products_reloaded_from_genbank")
         level0.append(p)
     try:
         v1 = gen.build_vector(rng, gb, o_start=ovB[n1], o_end=ovB[0], plen=rng.randint(0, 10), blen=rng.randint(2, 20))
